@@ -5,6 +5,18 @@ the reason 'not built yet' while the framework is under construction."""
 import json
 
 BUILT = {
+ "C01": dict(
+   technique="exhaustive enumerating generator over all C(52,7) sets + proptest targeted sets/pairs, differential against a from-the-rules best-of-21 reference classifier",
+   category="exploration",
+   text="Every one of the 133,784,560 seven-card sets is generated (both tiers) and evaluated in ascending, descending, flush-scan-adversarial and seeded shuffled orders against the class of the best of its 21 five-card subsets under an independent classifier; all 5,040 orders for a sample; 2M/20M hand pairs (shared boards, mirrored hole cards for ties) check ==,<,partial_cmp,cmp against poker order. Exhaustive over sets, sampled over orders.",
+   note="Trusted: the harness's 5-card classifier (two implementations cross-checked on all 2,598,960 hands; 7,462 classes and per-category counts asserted at start-up). Orders: all 7! only for sampled sets.",
+   ref="DESIGN.md section 4 (C01)"),
+ "C07": dict(
+   technique="exhaustive enumerating generator over all C(52,7) sets + directed category-boundary cases, oracle = category of the reference best-of-21 class",
+   category="exploration",
+   text="All 133,784,560 sets (hence all 4,824 reachable power indexes) plus the strongest and weakest reachable hand of every category are generated; the Debug name of hand_type() must equal the category of the best five-card hand under the independent classifier.",
+   note="Trusted: the harness's 5-card classifier (self-checked). The category enum is only reachable through its Debug output.",
+   ref="DESIGN.md section 4 (C07)"),
  "C13": dict(
    technique="exhaustive enumerating generator + model oracle (round trips, order/numbering model)",
    category="exploration",
